@@ -1,12 +1,144 @@
 /-
-ArtModel.Ops.Prep — protocol handler(s) for the `prep` operation family.
+ArtModel.Ops.Prep — protocol handler(s) for the `prep` operation family (C18).
 Core Lean only.  `none` = malformed line (the driver prints `bad-op`).
+
+All lines are `R` lines: numbers are exact rationals `p/q`; a matrix is rows
+joined by `|`, a row is entries joined by `,` (see `Art.Drv.parseMat`).
+
+  prep norm <X>
+      first `BaseART.prepare_data` call on a fresh module
+      -> `Y=<mat> dmax=<vec> dmin=<vec>`
+         an entry of `Y` is `nf` (non-finite: numpy NaN/±inf) when its divisor
+         `d_max - d_min` is zero
+  prep norm2 <X1> <X2>
+      `prepare_data(X1)` then `prepare_data(X2)` on the same module
+      -> `Y=<mat of the 2nd call> dmax=<vec> dmin=<vec> kept=<0|1>`
+         (`kept` = the second call left the remembered bounds unchanged)
+  prep denorm <Y> <dmax> <dmin>        `utils.de_normalize`      -> `X=<mat>`
+  prep cc <X>                          `utils.compliment_code`   -> `Y=<mat>`
+  prep decc <Y>                        `utils.de_compliment_code`-> `X=<mat>` | `assert`
+  prep prepare <base|fuzzy> <X>        that class's `prepare_data`, fresh module
+      -> `Y=<mat> dmax=<vec> dmin=<vec>`
+  prep restore <base|fuzzy> <Y> <dmax> <dmin>   that class's `restore_data`
+      -> `X=<mat>` | `assert`
+  prep roundtrip <base|fuzzy> <X>      restore_data(prepare_data(X)), fresh module
+      -> `X=<mat>` | `nf` (some column of X is constant) | `assert`
+  prep validate <base|fuzzy|art1|art2a> <alpha|-> <dim|-> <X>
+      that class's `validate_data` on a module whose `dim_` is <dim> (`-` = absent)
+      -> `ok dim=<n>` | `assert dim=<n|->`     (`dim` = `dim_` AFTER the call)
 -/
 import ArtModel.Driver
+import ArtModel.Prep
 
 namespace Art.Ops
+open Art.Drv
+
+def showOptEntry (v : Option Rat) : String :=
+  match v with
+  | some r => showRat r
+  | none => "nf"
+
+def showOptMat (m : List (List (Option Rat))) : String :=
+  if m.isEmpty then "-" else "|".intercalate (m.map (fun r =>
+    if r.isEmpty then "-" else ",".intercalate (r.map showOptEntry)))
+
+/-- normalised output with non-finite entries masked; `none` if the plain and
+the IEEE-aware model disagree on a finite entry (cannot happen, see
+`Art.Prep.normWithChk_eq`) -/
+def maskedNorm (X : Mat Rat) (s : PrepState Rat) : Option (String × PrepState Rat) :=
+  let r := prepareBase s X
+  match r.2.dmax, r.2.dmin with
+  | some mx, some mn =>
+    let chk := normWithChk mx mn X
+    let coherent := (List.zip chk r.1).all (fun (c, p) =>
+      c.length == p.length && (List.zip c p).all (fun (a, b) =>
+        match a with
+        | some v => v == b
+        | none => true))
+    if coherent && chk.length == r.1.length then some (showOptMat chk, r.2) else none
+  | _, _ => none
+
+def parseKind (s : String) : Option PrepKind :=
+  match s with
+  | "base" => some .base
+  | "fuzzy" => some .fuzzy
+  | _ => none
+
+def parseDim (s : String) : Option (Option Nat) :=
+  if s == "-" then some none else s.toNat?.map some
+
+def showDim (d : DimState) : String :=
+  match d.dim with
+  | some n => toString n
+  | none => "-"
+
+/-- is some column of `X` constant (divisor zero on the first call)? -/
+def hasConstCol (X : Mat Rat) : Bool :=
+  (List.zip (colMax X) (colMin X)).any (fun (a, b) => a == b)
 
 /-- handler for lines starting with `prep `; `a` = the remaining space-separated fields -/
-def prep (_a : List String) : Option String := none
+def prep (a : List String) : Option String := do
+  match a with
+  | ["norm", xs] =>
+    let X ← parseMat (α := Rat) xs
+    let (y, s) ← maskedNorm X {}
+    some s!"Y={y} dmax={showVec (s.dmax.getD [])} dmin={showVec (s.dmin.getD [])}"
+  | ["norm2", x1, x2] =>
+    let X1 ← parseMat (α := Rat) x1
+    let X2 ← parseMat (α := Rat) x2
+    let s1 := (prepareBase {} X1).2
+    let (y, s2) ← maskedNorm X2 s1
+    some s!"Y={y} dmax={showVec (s2.dmax.getD [])} dmin={showVec (s2.dmin.getD [])} kept={showBool (s1 == s2)}"
+  | ["denorm", ys, mx, mn] =>
+    let Y ← parseMat (α := Rat) ys
+    let mx ← parseVec (α := Rat) mx
+    let mn ← parseVec (α := Rat) mn
+    some s!"X={showMat (deNormalize Y mx mn)}"
+  | ["cc", xs] =>
+    let X ← parseMat (α := Rat) xs
+    some s!"Y={showMat (complementCode X)}"
+  | ["decc", ys] =>
+    let Y ← parseMat (α := Rat) ys
+    match deComplementCode Y with
+    | some X => some s!"X={showMat X}"
+    | none => some "assert"
+  | ["prepare", kind, xs] =>
+    let k ← parseKind kind
+    let X ← parseMat (α := Rat) xs
+    if hasConstCol X then some "nf"
+    else
+      let r := prepareMod k {} X
+      some s!"Y={showMat r.1} dmax={showVec (r.2.dmax.getD [])} dmin={showVec (r.2.dmin.getD [])}"
+  | ["restore", kind, ys, mx, mn] =>
+    let k ← parseKind kind
+    let Y ← parseMat (α := Rat) ys
+    let mx ← parseVec (α := Rat) mx
+    let mn ← parseVec (α := Rat) mn
+    match restoreMod k { dmax := some mx, dmin := some mn } Y with
+    | some X => some s!"X={showMat X}"
+    | none => some "assert"
+  | ["roundtrip", kind, xs] =>
+    let k ← parseKind kind
+    let X ← parseMat (α := Rat) xs
+    if hasConstCol X then some "nf"
+    else
+      let r := prepareMod k {} X
+      match restoreMod k r.2 r.1 with
+      | some X' => some s!"X={showMat X'}"
+      | none => some "assert"
+  | ["validate", cls, alpha, dim, xs] =>
+    let d ← parseDim dim
+    let X ← parseMat (α := Rat) xs
+    let s : DimState := { dim := d }
+    let r ← (match cls with
+      | "base" => some (runValidate (validBase (α := Rat)) s X)
+      | "fuzzy" => some (runValidate (validFuzzy (α := Rat)) s X)
+      | "art1" => some (runValidate (validART1 (α := Rat)) s X)
+      | "art2a" => do
+        let al ← parseRat alpha
+        some (runValidateART2A al s X)
+      | _ => none)
+    some s!"{if r.2 then "ok" else "assert"} dim={showDim r.1}"
+  | _ => none
 
 end Art.Ops
